@@ -13,12 +13,8 @@ func main() {
 	seed := flag.Int64("seed", 1, "PRNG seed")
 	tier := flag.String("tier", "quick", "quick|thorough")
 	out := flag.String("out", "", "output directory")
-	prop := flag.String("prop", "C07", "C07|C12|exp")
+	prop := flag.String("prop", "C07", "C07|C12")
 	flag.Parse()
-	if *prop == "exp" {
-		c07.Experiment(*seed)
-		return
-	}
 	if *out == "" {
 		os.Exit(2)
 	}
